@@ -491,6 +491,18 @@ fn run_inner(case: &EnvCase, orc: EnvOracles, prop: &str, feat: &mut EnvFeatures
             }
         }
 
+        // ---- C12 at environment level: every limit price on its asset's grid after the step
+        if orc.grid {
+            for a in 0..n {
+                for o in env.get_orders(a).iter() {
+                    let market = (o.bid && o.price == u32::MAX) || (!o.bid && o.price == 0);
+                    if !market && o.price % case.ticks[a] != 0 {
+                        return Err(fail("C12 off-grid price in the environment's book", si, format!("asset {} order {:?} tick {}", a, o, case.ticks[a])));
+                    }
+                }
+            }
+        }
+
         // ---- direct clauses of C08
         if orc.schedule || orc.records {
             for a in 0..n {
